@@ -161,6 +161,7 @@ where StandardUniform: Distribution<F>, OpenClosed01: Distribution<F>, Open01: D
 pub fn drive(args: &[String]) -> i32 {
     let seed = arg_u64(args, "--seed", 1);
     let outp = arg_val(args, "--out").unwrap();
+    let only = arg_val(args, "--only-ft");
     let mut passf = arg_val(args, "--passthrough").map(|p| std::fs::File::create(p).unwrap());
     let mut cases: Vec<Value> = vec![];
     for line in std::io::stdin().lock().lines() {
@@ -172,6 +173,7 @@ pub fn drive(args: &[String]) -> i32 {
     let mut handles = vec![];
     for (ci, c) in cases.iter().enumerate() {
         for ft in ["f32", "f64"] {
+            if let Some(o) = &only { if o != ft { continue; } }
             let c = c.clone();
             handles.push((ci, ft, std::thread::spawn(move || {
                 install_quiet_panic_hook();
